@@ -52,6 +52,19 @@ def unframe(chunk):
     return _pickle.loads(zlib.decompress(chunk[4:]))
 
 
+# Arbitrary picklable values a stranger may send as the first frame of a connection (D77). Index = code - 100.
+ARB = [None, 7, 1.5, b"x", ("a", 1), frozenset([1]), True, "", "readonlyX", -1, (),          # hashable, name nobody
+       {"a": 1}, {1, 2}, bytearray(b"x"), {},                                                # unhashable, not a list
+       [], [[1]], ["nosuchcommand"], [None], [{"a": 1}], ["status", "x"], [7]]               # lists
+
+
+def arb_index(m):
+    for idx, v in enumerate(ARB):
+        if type(v) is type(m) and v == m:
+            return idx
+    return None
+
+
 class FakeSock(object):
     def __init__(self, fabric, owner, alloc=True):
         self.fabric = fabric
@@ -100,6 +113,8 @@ class FakeSock(object):
         self.fabric.listeners[self.dest[1]] = self
 
     def accept(self):
+        if self.fabric.accept_errors.get(self.sid):
+            raise OSError(self.fabric.accept_errors[self.sid].pop(0), "accept failed")
         if not self.acceptq:
             raise OSError(_errno.EAGAIN, "again")
         s = self.acceptq.popleft()
@@ -233,6 +248,7 @@ class Fabric(object):
         self.next_sid = 100
         self.fd_mode = "lowest"      # "lowest": lowest free number, reused after close (what the OS does);
                                      # "monotone": never reused
+        self.accept_errors = {}      # sid of a listening socket -> errnos its next accept() calls fail with
         self.fdtab = {}              # owner -> set of open descriptor numbers (one table per process)
         self.fdnext = {}
         self.fdinc = {}              # owner -> incarnation the table belongs to
@@ -361,14 +377,22 @@ class World(object):
                 return ["readonly"]
             if m.startswith("10.0.0.1:"):
                 return ["addr", int(m.rsplit(":", 1)[1]) - 4000]
-            if m.startswith("h"):
+            if m.startswith("h") and m[1:].isdigit():
                 return ["hash", int(m[1:])]
-            return ["reply"]
-        if isinstance(m, dict):
+            idx = arb_index(m)
+            return ["hash", 100 + idx] if idx is not None else ["reply"]
+        if isinstance(m, dict) and "k" in m:
             return ["unhash", m["k"]]
         if isinstance(m, list):
-            return ["util", 1 if m and str(m[0]).lower() == "status" else 0]
-        return ["other"]
+            return ["util", 1 if m and isinstance(m[0], str) and m[0].lower() == "status" else 0]
+        idx = arb_index(m)
+        if idx is None:
+            return ["other"]
+        try:
+            hash(m)
+            return ["hash", 100 + idx]
+        except TypeError:
+            return ["unhash", 100 + idx]
 
     @staticmethod
     def mkmsg(mk):
@@ -383,6 +407,9 @@ class World(object):
             return {"k": mk[1]}
         if t == "util":
             return ["status"] if mk[1] else ["nosuchcmd"]
+        if t == "arb":
+            import copy
+            return copy.deepcopy(ARB[mk[1]])
         raise ValueError(mk)
 
     # ---- patching ------------------------------------------------------------------------------
@@ -663,6 +690,28 @@ class Sim(World):
         self.cov["accept"] += 1
         return [(j, "accept %d" % j, out)]
 
+    def a_accept_error(self, j, err="ECONNABORTED"):
+        """The listening socket of j is readable but accept() fails for that one connection (the peer reset it before
+        it was accepted: ECONNABORTED; out of descriptors: EMFILE). Not a model event: the registry is untouched."""
+        lst = self.fabric.listeners.get(self.port(j))
+        if lst is None or lst.owner != j or lst.closed:
+            return None
+        self.fabric.accept_errors.setdefault(lst.sid, []).append(getattr(_errno, err))
+        r, out = self.call(j, lambda: self.sobjs[j]._poller.fire(lst.fd, READ))
+        self.cov["accept_error." + err] += 1
+        if self.fabric.listeners.get(self.port(j)) is not lst or lst.closed or \
+                lst.fd not in self.sobjs[j]._poller.subs:
+            self.extra_viol.append({
+                "signature": "tcp_server.accept:listening-socket-closed-after-one-failed-accept",
+                "what": "transport %d: accept() failed once with %s and the server stopped listening; nothing binds it "
+                        "again (TCPTransport.ready stays True): members with a larger address can never reach this node "
+                        "again" % (j, err)})
+        for o in out:
+            if o[0] == "raised":
+                self.extra_viol.append({"signature": "transport.poll:exception-escapes-event-loop",
+                                        "what": "transport %d: %s escapes the accept callback" % (j, o[1])})
+        return []
+
     def a_client_event(self, sock, send_fail=False, imm_fail=False):
         """WRITE event on a client socket whose SYN was answered."""
         i = sock.owner
@@ -798,6 +847,13 @@ class Sim(World):
                 dst.rx.append(it)
         # complete frames in what the connection will hold after this read (bytes already buffered + new ones)
         msgs = split_frames(bytes(buffered) + b"".join(x for x in moved if isinstance(x, bytes)))
+        for pos, m0 in enumerate(msgs):
+            if m0 is None:
+                # TcpConnection cannot tell a frame carrying None from "no complete frame": the frame is consumed, dropped,
+                # and the parse loop stops; the frames behind it wait in the read buffer for the next read event
+                msgs = msgs[:pos]
+                self.cov["deliver.none-frame-dropped"] += 1
+                break
         conn = self.conn_objs[i][cid]
         pj = self._peer_index(dst)
         f = 1 if imm_fail and pj is not None else 0
@@ -859,11 +915,14 @@ class Sim(World):
                         "signature": "transport.deliver:complete-message-not-delivered-once",
                         "what": "transport %d, connection of %r: complete frames %r were readable, delivered %r"
                                 % (i, bound, mks, got)})
-        if honest and any(o[0] == "raised" for o in out):
+        if any(o[0] == "raised" for o in out):
+            # C13/C14: whatever arrives, from a member or from a stranger, no exception escapes the event loop
             self.extra_viol.append({
                 "signature": "transport.poll:exception-escapes-event-loop",
-                "what": "transport %d: %s escapes the poll callback while reading what member %r sent (frames %r)"
-                        % (i, [o[1] for o in out if o[0] == "raised"], origin, mks[:2])})
+                "what": "transport %d: %s escapes the poll callback while reading frames %r sent by %r; the rest of the "
+                        "poll pass is skipped and the connection stays %s" % (
+                            i, [o[1] for o in out if o[0] == "raised"], mks[:2], origin,
+                            "in _unknownConnections" if conn in self.transports[i]._unknownConnections else "open")})
         if honest and in_unknown and term is None and mks:
             want = ["addr", origin[1]] if origin[0] == "tcp" else ["readonly"]
             if mks[0] != want:
@@ -1001,6 +1060,8 @@ class Sim(World):
         if mk[0] == "addr" and (i in self.readonly or i > mk[1]):
             self.tainted.add((i, mk[1]))
         self.cov["stranger.msg." + mk[0]] += 1
+        if mk[0] == "arb":
+            self.cov["stranger.arb.%s" % type(ARB[mk[1]]).__name__] += 1
         return []
 
     def a_restart(self, i, silent):
